@@ -435,7 +435,7 @@ void run_unbounded(Choices& c, Report& r, bool quiescence)
   size_t pnode = 0, cnode = 0;
   Model m;
   long refused = 0, grows = 0, shrinks = 0, switches_seen = 0, threw = 0, multi_doubling = 0, gave_up = 0, cap_reached = 0;
-  bool shrink_then_grow = false, last_was_shrink = false;
+  bool shrink_then_grow = false, last_was_shrink = false, chain_ge_3 = false;
   bool consumer_idle_committed = true;
   std::string opslog;
   uint64_t largest_reachable = init_cap;
@@ -471,6 +471,21 @@ void run_unbounded(Choices& c, Report& r, bool quiescence)
           pnode = nodes.size() - 1;
           ++shrinks;
           last_was_shrink = true;
+          // further halvings in a row with nothing written in between: a chain of several never-used buffers that the
+          // consumer has to walk in one read (0..3 more)
+          unsigned const more = c.pick(4);
+          for (unsigned m = 0; m < more; ++m)
+          {
+            uint64_t const cur = nodes[pnode].cap;
+            if (cur / 2 < 16) break;
+            q.shrink(static_cast<size_t>(cur / 2));
+            if (opslog.size() < 400) opslog += "shrink(" + std::to_string(cur / 2) + ") ";
+            if (q.producer_capacity() != cur / 2) { E().fail("shrink(" + std::to_string(cur / 2) + ") from " + std::to_string(cur) + ": capacity is " + std::to_string(q.producer_capacity())); return; }
+            nodes.push_back(Node{cur / 2});
+            pnode = nodes.size() - 1;
+            ++shrinks;
+            if (m >= 1) chain_ge_3 = true;
+          }
         }
         else if (after != pcap) { E().fail("shrink to more than half the capacity must be ignored"); return; }
         continue;
@@ -751,6 +766,7 @@ void run_unbounded(Choices& c, Report& r, bool quiescence)
   if (shrinks) r.label("shrank");
   if (switches_seen) r.label("consumer_switched_buffer");
   if (shrink_then_grow) r.label("shrink_then_grow");
+  if (chain_ge_3) r.label("three_or_more_shrinks_in_a_row");
   if (E().stale_loads) r.label("stale_load_taken");
   if (refused) r.label("reservation_refused");
   r.nontrivial = (switches_seen >= 1 && E().preemptions >= 4) || shrink_then_grow;
